@@ -25,7 +25,7 @@ ASSUMPTIONS = ["parameters, hashers and type markers are constant after construc
 
 
 def correspond(run):
-    n = 1000 if run.tier == "quick" else 10000
+    n = 1000 if run.depth == "quick" else 10000
     cases, codes = sklib.correspond_sk(run, n, "all")
     if cases is None:
         return
@@ -34,7 +34,7 @@ def correspond(run):
                        "operation histories on SetSketch, SuperMinHash, SuperMinHash2 and both densified sketchers in which reinit "
                        "occurs between partial streams, finished and unfinished densification, merges and clipped registers; the "
                        "model (whose reinit is the constructor) must reproduce every field afterwards")
-    rc, js, out, err = vlib.harness(["ord-cases", "--seed", run.seed, "--n", 300 if run.tier == "quick" else 3000,
+    rc, js, out, err = vlib.harness(["ord-cases", "--seed", run.seed, "--n", 300 if run.depth == "quick" else 3000,
                                      "--break-on-reject", sklib.flags_ord()], timeout=1200)
     if rc != 0 or js is None:
         run.oblige("correspondence:ord-cases", "correspondence", False, (out[-300:] + err[-300:]))
@@ -51,12 +51,12 @@ def correspond(run):
 
 def direct(run):
     sklib.direct_props(run, ["reinit"])
-    rc, js, out, err = vlib.harness(["pmh-props", "--seed", run.seed, "--n", 200 if run.tier == "quick" else 3000], timeout=1800)
+    rc, js, out, err = vlib.harness(["pmh-props", "--seed", run.seed, "--n", 200 if run.depth == "quick" else 3000], timeout=1800)
     if rc == 0 and js is not None:
         for f in js["found"]:
             if f["key"] == "reset-2":
                 run.violation(f["key"], f["text"], {"kind": "impl-input", "input": f["input"], "observed": f["text"]})
-    rc, js, out, err = vlib.harness(["ord-props", "--seed", run.seed, "--n", 200 if run.tier == "quick" else 3000], timeout=1800)
+    rc, js, out, err = vlib.harness(["ord-props", "--seed", run.seed, "--n", 200 if run.depth == "quick" else 3000], timeout=1800)
     if rc == 0 and js is not None:
         for f in js["found"]:
             if f["key"] == "ord-history":
